@@ -311,6 +311,8 @@ class Array:
         """Insert a new element into the Array at position i.
 
         """
+        if i < 0:
+            i = max(i + len(self), 0)  # Negative indices count from the end, and are clamped like list.insert
         i = min(i, len(self))  # Inserting beyond len of array inserts at the end (copying standard behaviour)
         self.data.insert(self._create_element(x), i * self._dtype.bitlength)
 
